@@ -35,13 +35,19 @@ type argSpec struct {
 	Named string // "" = positional
 }
 
-func callSrc(args []argSpec) string {
+// callSrc: argument i is the literal i+1; with nilLast the last argument is the literal nil
+// (expression number 0: an explicit nil is a passed value, not "absent")
+func callSrc(args []argSpec, nilLast bool) string {
 	parts := []string{}
 	for i, a := range args {
+		val := fmt.Sprint(i + 1)
+		if nilLast && i == len(args)-1 {
+			val = "nil"
+		}
 		if a.Named == "" {
-			parts = append(parts, fmt.Sprint(i+1))
+			parts = append(parts, val)
 		} else {
-			parts = append(parts, fmt.Sprintf("%s = %d", a.Named, i+1))
+			parts = append(parts, fmt.Sprintf("%s = %s", a.Named, val))
 		}
 	}
 	return "f(" + strings.Join(parts, ", ") + ")\n"
@@ -69,11 +75,17 @@ func bindOnce(params []*runtimev2.Param, src string) (res string) {
 					l, _ := v.([]any)
 					es := []string{}
 					for _, x := range l {
-						es = append(es, fmt.Sprint(x))
+						if x == nil {
+							es = append(es, "0")
+						} else {
+							es = append(es, fmt.Sprint(x))
+						}
 					}
 					got = append(got, "list["+strings.Join(es, " ")+"]")
 				case v == "DEF":
 					got = append(got, "default")
+				case v == nil:
+					got = append(got, "value0")
 				default:
 					got = append(got, "value"+fmt.Sprint(v))
 				}
@@ -133,7 +145,13 @@ func genC19(e *emitter, tier string, seed int64) {
 			for i, a := range c {
 				aj = append(aj, []any{hx(a.Named), i + 1})
 			}
-			results = append(results, []any{aj, bindOnce(params, callSrc(c))})
+			results = append(results, []any{aj, bindOnce(params, callSrc(c, false))})
+			if len(c) > 0 {
+				// the same call with an explicit nil as its last argument
+				an := append([]any{}, aj[:len(aj)-1]...)
+				an = append(an, []any{hx(c[len(c)-1].Named), 0})
+				results = append(results, []any{an, bindOnce(params, callSrc(c, true))})
+			}
 		}
 		e.stat("paramlist")
 		e.emit(map[string]any{"k": "bind", "params": pj, "defok": defOK, "calls": results})
